@@ -123,6 +123,7 @@ def step (st : St) (args : List String) : St × String × String :=
       dup ({ s := s3 }, (match findSub s3 (decStr id) with
         | some sub => statusOf sub
         | none => "?") ++ " mon=ok")
+  | ["rwalk"] => dup (st, "mon=ok")  -- a STREAM subscription set up while the match tree is busy (a server and cache of its own): Go-side monitor
   | "churn" :: _ => dup (st, "ok")   -- all-targets ONCE subscriptions under target churn (a cache of its own): Go-side monitor
   | ["pregate", id] => dup ({ s := { s with pregated := decStr id :: s.pregated } }, "ok")
   | ["sub", id, acl, req] =>
